@@ -166,6 +166,31 @@ def make_variants(rng, base: pg.Pkg, m: pg.Mod):
     return variants, users
 
 
+COMMON_PARAMS = ["value", "other", "count"]
+
+
+def add_documented_tails(rng, base: pg.Pkg, tag: str) -> pg.Mod:
+    """Every module ends with a function whose NumPy-style docstring documents parameters / a result under names that
+    an undocumented module reuses; that module starts with a UTF-8 byte order mark, so the docstring library does not
+    load it while the type checker does.  Whatever is looked up before it must not reach its stub."""
+    for k, y in enumerate(base.modules):
+        doc = (
+            f"Tail of {y.name}.\n\nParameters\n----------\n"
+            + "".join(f"{p} : int\n    Tdoc{tag}x{k}{p} described in {y.name}.\n" for p in COMMON_PARAMS)
+            + f"\nReturns\n-------\ntail_result_{k} : int\n    Tres{tag}x{k} result of {y.name}.\n"
+        )
+        # raw source behind everything else of the module: the documented function is the module's last declaration
+        y.extra += f"\n\ndef tail_fn_{k}({', '.join(p + ': int' for p in COMMON_PARAMS)}) -> int:\n    {doc!r}\n    return 0\n"
+    victim = pg.Mod(("pk",), f"unseen_mod_{rng.choice('amz')}", decls=[
+        pg.Fn("first_unseen", [pg.Param(p, "int") for p in COMMON_PARAMS], "int"),
+        pg.Cls("UnseenClass", methods=[pg.Fn("method_unseen", [pg.Param("value", "int"), pg.Param("other", "int")], "int", role="inst")]),
+        pg.Fn("last_unseen", [pg.Param("count", "int")], "int"),
+    ])
+    base.modules.append(victim)
+    base.bom_files = [*getattr(base, "bom_files", ()), victim.path]
+    return victim
+
+
 def permuted(rng, base: pg.Pkg, m: pg.Mod) -> pg.Pkg:
     p = copy.deepcopy(base)
     for y in p.modules:
@@ -195,10 +220,22 @@ def gen(tier: str, seed: int):
         if not public_mods:
             continue
         targets = rng.sample(public_mods, min(len(public_mods), 2 if tier == "quick" else 3))
+        forced = []
+        if i % 2 == 0:
+            targets = [add_documented_tails(rng, base, f"{i}"), *targets[:1]]
+            forced = ["--docstyle", ["numpydoc", "numpydoc", "google"][(i // 2) % 3]]
         for m in targets:
             variants, _users = make_variants(rng, base, m)
             variants.append(("permute-declarations", permuted(rng, base, m)))
-            groups.append((f"g{i}-{m.name}", base, m, variants, (["-nc"] if i % 2 else []) + noise_opts(seed, PID, i)))
+            if forced and m is targets[0]:
+                # every OTHER module gets different documentation texts (the modules M uses are documented elsewhere in
+                # their own stubs; M's stub shows only M's documentation)
+                p2 = copy.deepcopy(base)
+                for y in p2.modules:
+                    if y.qname != m.qname:
+                        y.extra = y.extra.replace("Tdoc", "Tedited").replace("Tres", "Tresedited")
+                variants.append(("edit-documentation-of-all-other-modules", p2))
+            groups.append((f"g{i}-{m.name}", base, m, variants, (["-nc"] if i % 2 else []) + (forced or noise_opts(seed, PID, i))))
     return groups
 
 
